@@ -38,8 +38,8 @@ def main (args : List String) : IO UInt32 := do
   | ["time"] => loopPure stdin stdout timeStep; return 0
   | ["cache"] => loopState stdin stdout cacheStep (Drand.Beacon.Cache.empty 96); return 0
   | "chain" :: _ => loopState stdin stdout chainStep (Drand.Chain.Stack.init true []); return 0
-  | ["stream", backend] => loopState stdin stdout streamStep (streamDrvInit backend "asis"); return 0
-  | ["stream", backend, variant] => loopState stdin stdout streamStep (streamDrvInit backend variant); return 0
+  | ["stream", backend] => loopState stdin stdout streamStep' (streamDrvInit backend "asis"); return 0
+  | ["stream", backend, variant] => loopState stdin stdout streamStep' (streamDrvInit backend variant); return 0
   | ["cbstore"] => loopState stdin stdout cbStep cbDrvInit; return 0
   | ["hash"] => loopPure stdin stdout hashStep; return 0
   | ["store", backend] =>
